@@ -1,0 +1,150 @@
+//go:build verif
+// +build verif
+
+// Verification hook (add-only, build tag verif): read-only views of package-private VM
+// tables and analyses for the C10/C11 checks. Nothing here is compiled into a normal build.
+package vm
+
+import (
+	"reflect"
+	"runtime"
+
+	"github.com/holiman/uint256"
+)
+
+// VerifVMOp is a plain copy of one jump table entry.
+type VerifVMOp struct {
+	Defined     bool
+	Exec        string // runtime name of the execute function (closures: enclosing function + ".funcN")
+	ExecFile    string // source file that defines it
+	DynamicGas  string // "" when nil
+	MemorySize  string // "" when nil
+	ConstantGas uint64
+	MinStack    int
+	MaxStack    int
+	Halts       bool
+	Jumps       bool
+	Writes      bool
+	Reverts     bool
+	Returns     bool
+}
+
+func verifVMFuncName(f interface{}) (string, string) {
+	v := reflect.ValueOf(f)
+	if v.Kind() != reflect.Func || v.IsNil() {
+		return "", ""
+	}
+	fn := runtime.FuncForPC(v.Pointer())
+	if fn == nil {
+		return "?", ""
+	}
+	file, _ := fn.FileLine(v.Pointer())
+	return fn.Name(), file
+}
+
+func verifVMBuildTable(p014, p022, p026 bool) JumpTable {
+	jt := newInstructionSet()
+	if p014 {
+		doProposal014(&jt)
+	}
+	if p022 {
+		doProposal022(&jt)
+	}
+	if p026 {
+		doProposal026(&jt)
+	}
+	return jt
+}
+
+// VerifVMTable returns the instruction set exactly as NewEVMInterpreter assembles it when the
+// block height is at/after the given proposals (newInstructionSet + doProposal014/022/026).
+func VerifVMTable(p014, p022, p026 bool) [256]VerifVMOp {
+	jt := verifVMBuildTable(p014, p022, p026)
+	var out [256]VerifVMOp
+	for i, op := range jt {
+		if op == nil {
+			continue
+		}
+		o := VerifVMOp{Defined: true, ConstantGas: op.constantGas, MinStack: op.minStack, MaxStack: op.maxStack,
+			Halts: op.halts, Jumps: op.jumps, Writes: op.writes, Reverts: op.reverts, Returns: op.returns}
+		o.Exec, o.ExecFile = verifVMFuncName(op.execute)
+		if op.dynamicGas != nil {
+			o.DynamicGas, _ = verifVMFuncName(op.dynamicGas)
+		}
+		if op.memorySize != nil {
+			o.MemorySize, _ = verifVMFuncName(op.memorySize)
+		}
+		out[i] = o
+	}
+	return out
+}
+
+// VerifVMLiveTable returns the table of the interpreter actually installed in evm.
+func VerifVMLiveTable(evm *EVM) [256]VerifVMOp {
+	var out [256]VerifVMOp
+	in, ok := evm.interpreter.(*EVMInterpreter)
+	if !ok {
+		return out
+	}
+	for i, op := range in.jumpTable {
+		if op == nil {
+			continue
+		}
+		o := VerifVMOp{Defined: true, ConstantGas: op.constantGas, MinStack: op.minStack, MaxStack: op.maxStack,
+			Halts: op.halts, Jumps: op.jumps, Writes: op.writes, Reverts: op.reverts, Returns: op.returns}
+		o.Exec, o.ExecFile = verifVMFuncName(op.execute)
+		if op.dynamicGas != nil {
+			o.DynamicGas, _ = verifVMFuncName(op.dynamicGas)
+		}
+		if op.memorySize != nil {
+			o.MemorySize, _ = verifVMFuncName(op.memorySize)
+		}
+		out[i] = o
+	}
+	return out
+}
+
+// VerifVMCodeBitmap exposes codeBitmap (analysis.go).
+func VerifVMCodeBitmap(code []byte) []byte { return []byte(codeBitmap(code)) }
+
+// VerifVMValidJumpdest runs Contract.validJumpdest on a fresh contract holding code.
+func VerifVMValidJumpdest(code []byte, dest *uint256.Int) bool {
+	c := &Contract{Code: code}
+	return c.validJumpdest(dest)
+}
+
+// VerifVMMemorySize evaluates the table's memorySize function of op on the given stack
+// (stack[len-1] is the top). has=false when the entry has none.
+func VerifVMMemorySize(p014, p022, p026 bool, op byte, stack []uint256.Int) (size uint64, overflow bool, has bool) {
+	jt := verifVMBuildTable(p014, p022, p026)
+	o := jt[op]
+	if o == nil || o.memorySize == nil {
+		return 0, false, false
+	}
+	st := &Stack{data: append([]uint256.Int{}, stack...)}
+	size, overflow = o.memorySize(st)
+	return size, overflow, true
+}
+
+// VerifVMDynamicGas evaluates the table's dynamicGas function of op (evm may be nil for the
+// functions that do not consult state) on a memory of memLen bytes whose last charged total
+// fee is lastGasCost, for a requested (word-rounded) memory size. has=false when there is none.
+func VerifVMDynamicGas(evm *EVM, p014, p022, p026 bool, op byte, stack []uint256.Int, contractGas uint64,
+	memLen uint64, lastGasCost uint64, memorySize uint64) (gas uint64, err error, has bool) {
+	jt := verifVMBuildTable(p014, p022, p026)
+	o := jt[op]
+	if o == nil || o.dynamicGas == nil {
+		return 0, nil, false
+	}
+	st := &Stack{data: append([]uint256.Int{}, stack...)}
+	mem := &Memory{store: make([]byte, memLen), lastGasCost: lastGasCost}
+	c := &Contract{Gas: contractGas}
+	gas, err = o.dynamicGas(evm, c, st, mem, memorySize)
+	return gas, err, true
+}
+
+// VerifVMDepth is the EVM's current call depth counter.
+func VerifVMDepth(evm *EVM) int { return evm.depth }
+
+// VerifVMToWordSize exposes toWordSize (common.go).
+func VerifVMToWordSize(n uint64) uint64 { return toWordSize(n) }
